@@ -894,7 +894,7 @@ class LinearInfiniteRTransform(BaseTransform):
         """
         self.set_maximum_parameter_b(x)
         alpha = (self._rmax - self._rmin) / self.b
-        return np.ones(x.size) * alpha
+        return np.ones(np.shape(x)) * alpha
 
     def deriv2(self, x: np.ndarray):
         r"""Compute the second derivative of linear transformation.
@@ -910,7 +910,7 @@ class LinearInfiniteRTransform(BaseTransform):
             Second derivative of transformation at x.
 
         """
-        return np.zeros(x.size)
+        return np.zeros(np.shape(x))
 
     def deriv3(self, x: np.ndarray):
         r"""Compute the third derivative of linear transformation.
@@ -926,7 +926,7 @@ class LinearInfiniteRTransform(BaseTransform):
             Third derivative of transformation at x.
 
         """
-        return np.zeros(x.size)
+        return np.zeros(np.shape(x))
 
     def inverse(self, r: np.ndarray):
         r"""Compute the inverse of linear transformation.
@@ -1374,7 +1374,7 @@ class HyperbolicRTransform(BaseTransform):
             The transformation of x to the co-domain of the transformation.
 
         """
-        if self._b * (x.size - 1) >= 1.0:
+        if self._b * (np.size(x) - 1) >= 1.0:
             raise ValueError("b*(npoint-1) must be smaller than one.")
         return self._a * x / (1 - self._b * x)
 
@@ -1393,7 +1393,7 @@ class HyperbolicRTransform(BaseTransform):
             First derivative of transformation at x.
 
         """
-        if self._b * (x.size - 1) >= 1.0:
+        if self._b * (np.size(x) - 1) >= 1.0:
             raise ValueError("b*(npoint-1) must be smaller than one.")
         x = 1.0 / (1 - self._b * x)
         return self._a * x * x
@@ -1413,7 +1413,7 @@ class HyperbolicRTransform(BaseTransform):
             Second derivative of transformation at x.
 
         """
-        if self._b * (x.size - 1) >= 1.0:
+        if self._b * (np.size(x) - 1) >= 1.0:
             raise ValueError("b*(npoint-1) must be smaller than one.")
         x = 1.0 / (1 - self._b * x)
         return 2.0 * self._a * self._b * x**3
@@ -1433,7 +1433,7 @@ class HyperbolicRTransform(BaseTransform):
             Third derivative of transformation at x.
 
         """
-        if self._b * (x.size - 1) >= 1.0:
+        if self._b * (np.size(x) - 1) >= 1.0:
             raise ValueError("b*(npoint-1) must be smaller than one.")
         x = 1.0 / (1 - self._b * x)
         return 6.0 * self._a * self._b * self._b * x**4
@@ -1456,7 +1456,7 @@ class HyperbolicRTransform(BaseTransform):
             Inverse transformation at r.
 
         """
-        if self._b * (r.size - 1) >= 1.0:
+        if self._b * (np.size(r) - 1) >= 1.0:
             raise ValueError("b*(npoint-1) must be smaller than one.")
         return r / (self._a + self._b * r)
 
